@@ -1,0 +1,15 @@
+//go:build verif
+
+package httpgrpc
+
+// VerifHook, when set, is called at named schedule points of the HTTP
+// transport's streams. It exists only in builds with the "verif" tag and is
+// used by the external verification harness to control interleavings
+// deterministically.
+var VerifHook func(point string)
+
+func verifPoint(p string) {
+	if h := VerifHook; h != nil {
+		h(p)
+	}
+}
